@@ -139,4 +139,13 @@ CHECKS = {
           "the reader from the extension. Fixture files as smoke input.",
   "note": "Trusted: vmon/refmodels/notation.py, mei_writer.py, kern_writer.py (the stated subset only). Fixtures without xml:id are counted, not judged.",
  },
+ "C20": {
+  "technique": "generic deep-snapshot wrapper (before == after, same objects) on every read-only entry point + repeat-call / call-order driver + iteration trace checks on Score and Performance",
+  "text": "Hooks on save_musicxml, save_score_midi, save_performance_midi, save_match, matchfile_from_alignment, the note/rest array "
+          "builders, piano rolls, the eleven map getters, pretty, unfold_part_maximal/minimal, estimate_spelling/voices/key and "
+          "transpose take a deep identity-preserving snapshot of the argument before and after every call; a driver calls each "
+          "entry point once, twice and in sampled pairs in both orders on the same object and compares results; Score and "
+          "Performance are checked for len/index/iter agreement and for nested, interleaved and restarted iteration.",
+  "note": "Trusted: vmon/snapshot.py. Open known finding: Segment objects cached on the argument by the unfolders (shared with C09).",
+ },
 }
